@@ -182,8 +182,14 @@ pub fn random_op(rng: &mut Rng, live: &[u64], step: u64) -> J {
         // seed the history with valid entries of the three built-in kinds on A, then replicate
         return json!({"op":"create","srv":"A","n":step + 1,"kind":step,"defect":"valid","custom2":false});
     }
-    if step == 3 {
-        return json!({"op":"repl","from":"A"});
+    // scripted prefix: a replicated merge of two individually valid edits that is not a valid entry
+    match step {
+        3 => return json!({"op":"modify","srv":"A","n":1,"defect":"valid","kind":"addposix","batch":false}),
+        4 => return json!({"op":"repl","from":"A"}),
+        5 => return json!({"op":"split","n":1}),
+        6 => return json!({"op":"repl","from":"A"}),
+        7 => return json!({"op":"repl","from":"B"}),
+        _ => {}
     }
     match rng.below(100) {
         0..=21 => json!({"op":"create","srv":srv,"n":fresh(rng),"kind":rng.below(4),"defect":defect,"custom2":rng.chance(1,2)}),
@@ -262,6 +268,10 @@ async fn label(p: &Pair, op: &J) -> (bool, String) {
                 let posix = t.attribute_equality(Attribute::Class, &EntryClass::PosixAccount.into());
                 let account = t.attribute_equality(Attribute::Class, &EntryClass::Account.into());
                 let custom = t.attribute_equality(Attribute::Class, &PartialValue::new_iutf8("kvclass1"));
+                if defect == "missing_must" {
+                    // purging `name` only breaks entries whose classes require it
+                    applies = account || custom;
+                }
                 if defect == "valid" {
                     // the "valid" edits are only valid on the entry kinds they are meant for
                     applies = match kind {
